@@ -11,7 +11,7 @@ use blots_core::values::SerializableValue;
 use proptest::prelude::*;
 use serde::{Deserialize, Serialize};
 
-pub const RULE: &str = "paths: finite doubles (uniform bit patterns, boundary pool, powers of 2 and 10 +-1 ulp, integers k +-1 ulp, the 1e15 / 1e21 printing thresholds, 2^53 neighbourhood, subnormals, f64::MAX, -0) through to_number(to_string(x)), JSON output->input, closure capture -> emitted source -> reload -> call, and literal -> format_expr (several widths) -> parse; all compared by bit pattern. literals: spellings of the exact decimal value of a double (underscore groups, shifted point with compensating exponent, e/E, signed exponent, leading dot, leading zeros, leading +), exact midpoints between adjacent doubles and midpoint +- tiny, and 0x / 0b literals with underscores, evaluated as literals and read by to_number, compared with the correctly rounded reference double (computed by construction with exact decimal arithmetic / u128). Non-trivial = the double is not an integer below 2^53, or the spelling uses >= 2 optional features; distinct by bit pattern / literal text.";
+pub const RULE: &str = "paths: finite doubles (uniform bit patterns, boundary pool, powers of 2 and 10 +-1 ulp, integers k +-1 ulp, the 1e15 / 1e21 printing thresholds, 2^53 neighbourhood, subnormals, f64::MAX, -0) through to_number(to_string(x)), JSON output->input, closure capture -> emitted source -> reload -> call, and literal -> format_expr (several widths) -> parse; all compared by bit pattern. literals: spellings of the exact decimal value of a double (underscore groups, shifted point with compensating exponent, e/E, signed exponent, leading dot, leading zeros, leading +), exact midpoints between adjacent doubles and midpoint +- tiny, short mantissas (1..19 digits) with exponents up to +-330 (reference: Rust's correctly rounded parser), and 0x / 0b literals with underscores, evaluated as literals and read by to_number, compared with the correctly rounded reference double (computed by construction with exact decimal arithmetic / u128). Non-trivial = the double is not an integer below 2^53, or the spelling uses >= 2 optional features; distinct by bit pattern / literal text.";
 pub const ASSUMPTIONS: &[&str] = &[
     "Rust's exact float formatting and the harness decimal arithmetic are the trusted base for reference values",
     "radix literals >= 2^63 may be rejected with an error (the implementation parses through i64) but must never evaluate to a wrong value",
@@ -369,6 +369,23 @@ fn mid_text(mid: &Dec, nudge: i32) -> String {
     if ds.len() == 1 { format!("{}e{}", ds, exp) } else { format!("{}.{}e{}", &ds[..1], &ds[1..], exp) }
 }
 
+/// short mantissas (1..19 digits) with large positive or negative exponents, point anywhere:
+/// the texts a fast path with an "exact small case" would take; reference = Rust's own
+/// correctly rounded parser on the same text
+fn short_mantissa_literals() -> BoxedStrategy<Case> {
+    (1u64..10_000_000_000_000_000_000, 1usize..20, prop_oneof![-330i32..-20, 20i32..310, -25i32..25], 0usize..20, any::<bool>())
+        .prop_map(|(m, digits, e, point, upper)| {
+            let mut ds = m.to_string();
+            ds.truncate(digits.max(1));
+            let p = point.min(ds.len());
+            let mant = if p == 0 || p == ds.len() { ds.clone() } else { format!("{}.{}", &ds[..p], &ds[p..]) };
+            let text = format!("{}{}{}", mant, if upper { 'E' } else { 'e' }, e);
+            let expect: f64 = text.parse().unwrap_or(f64::INFINITY);
+            if expect.is_finite() { Case::Literal { text, expect: F(expect), features: 2 } } else { Case::Literal { text: "1e3".into(), expect: F(1000.0), features: 2 } }
+        })
+        .boxed()
+}
+
 fn radix_literals() -> BoxedStrategy<Case> {
     (any::<u64>(), 1u32..65, any::<bool>(), any::<[u16; 3]>(), 0u8..3)
         .prop_map(|(bits, width, hex, style, sign)| {
@@ -446,4 +463,5 @@ pub fn run(ctx: &mut Ctx) {
     ctx.run_random(&Numbers, path_doubles().prop_map(Case::Paths), ctx.tier.pick(60_000, 2_000_000));
     ctx.run_random(&Numbers, decimal_literals(), ctx.tier.pick(40_000, 1_200_000));
     ctx.run_random(&Numbers, radix_literals(), ctx.tier.pick(20_000, 600_000));
+    ctx.run_random(&Numbers, short_mantissa_literals(), ctx.tier.pick(40_000, 1_200_000));
 }
